@@ -478,6 +478,9 @@ fn check_doc(doc: &VarDoc) -> Verdict {
 
     let mut labels: Vec<&'static str> = Vec::new();
     let mut nontrivial = false;
+    // what a fresh buffer gives per record (None: rejected), for the reused-buffer pass below
+    let mut fresh_eager: Vec<Option<VarRecord>> = Vec::new();
+    let mut fresh_lazy: Vec<Option<VarRecord>> = Vec::new();
     for (i, model) in doc.records.iter().enumerate() {
         let want = model.normalised(Target::VcfText, hm);
         let (a, b) = line_bounds[i];
@@ -519,6 +522,7 @@ fn check_doc(doc: &VarDoc) -> Verdict {
                 None
             }
         };
+        fresh_eager.push(eager.clone());
         if let Some(eager) = &eager {
             if let Some((field, msg)) = want.first_diff(&eager.normalised(Target::VcfText, hm)) {
                 fails.push(field_sig("c09.roundtrip", field), format!("record {i}: parse(write(x)) != x: {msg}; line {:?}", trunc(line, 400)));
@@ -552,7 +556,9 @@ fn check_doc(doc: &VarDoc) -> Verdict {
                 }
             }
         }
-        match VarRecord::from_variant_record(&header2, &lazy) {
+        let lazy_model = VarRecord::from_variant_record(&header2, &lazy);
+        fresh_lazy.push(lazy_model.as_ref().ok().cloned());
+        match lazy_model {
             Ok(lz) => {
                 // the lazy view decodes lazily: compare with the eager parse when there is one,
                 // else with the input
@@ -699,6 +705,70 @@ fn check_doc(doc: &VarDoc) -> Verdict {
         l(model.info.iter().any(|(k, _)| k == "SVLEN"), "SVLEN");
         l(model.reference != want.reference, "ref-iupac");
         l(hm.minor == 5 && (model.info.iter().any(|(k, _)| k == "SVLEN") || model.format.iter().any(|k| k == "LEN")), "v4.5-svlen-or-len");
+    }
+    // oracle 6: one buffer reused for the whole file (what `record_bufs()`, `records()` and every
+    // read loop do) gives what a fresh buffer gives, record by record
+    if fresh_eager.len() == doc.records.len() && fresh_lazy.len() == doc.records.len() && doc.records.len() >= 2 {
+        let mut r2 = vcf::io::Reader::new(&text[..]);
+        let mut r3 = vcf::io::Reader::new(&text[..]);
+        let mut r4 = vcf::io::Reader::new(&text[..]);
+        if r2.read_header().is_ok() && r3.read_header().is_ok() && r4.read_header().is_ok() {
+            let mut rb = vcf::variant::RecordBuf::default();
+            let mut lz = vcf::Record::default();
+            let mut it = r4.record_bufs(&header2);
+            for i in 0..doc.records.len() {
+                let got = match r2.read_record_buf(&header2, &mut rb) {
+                    Ok(0) => {
+                        fails.push("c09.reuse.eager", format!("record {i}: read_record_buf into a reused buffer returns 0"));
+                        break;
+                    }
+                    Ok(_) => Some(VarRecord::from_record_buf(&rb)),
+                    Err(_) => None,
+                };
+                match (&got, &fresh_eager[i]) {
+                    (Some(g), Some(f)) => {
+                        if let Some((field, msg)) = f.first_diff(g) {
+                            fails.push(field_sig("c09.reuse.eager", field), format!("record {i}: read_record_buf into the buffer that held record {} differs from a read into a fresh buffer: {msg} (left = fresh, right = reused)", i - i.min(1)));
+                        }
+                    }
+                    (None, None) => {}
+                    (g, f) => fails.push("c09.reuse.eager-outcome", format!("record {i}: reused buffer accepted = {}, fresh buffer accepted = {}", g.is_some(), f.is_some())),
+                }
+                match it.next() {
+                    Some(Ok(x)) => {
+                        if let Some(f) = &fresh_eager[i] {
+                            if let Some((field, msg)) = f.first_diff(&VarRecord::from_record_buf(&x)) {
+                                fails.push(field_sig("c09.reuse.record-bufs", field), format!("record {i}: record_bufs() item differs from a read into a fresh buffer: {msg} (left = fresh, right = iterator)"));
+                            }
+                        } else {
+                            fails.push("c09.reuse.eager-outcome", format!("record {i}: record_bufs() accepts what a fresh read_record_buf rejects"));
+                        }
+                    }
+                    Some(Err(_)) => {
+                        if fresh_eager[i].is_some() {
+                            fails.push("c09.reuse.eager-outcome", format!("record {i}: record_bufs() rejects what a fresh read_record_buf accepts"));
+                        }
+                    }
+                    None => fails.push("c09.reuse.record-bufs", format!("record {i}: record_bufs() ends early")),
+                }
+                match r3.read_record(&mut lz) {
+                    Ok(0) | Err(_) => {
+                        fails.push("c09.reuse.lazy", format!("record {i}: read_record into a reused record fails or returns 0"));
+                        break;
+                    }
+                    Ok(_) => {}
+                }
+                match (VarRecord::from_variant_record(&header2, &lz).ok(), &fresh_lazy[i]) {
+                    (Some(g), Some(f)) => {
+                        if let Some((field, msg)) = f.first_diff(&g) {
+                            fails.push(field_sig("c09.reuse.lazy", field), format!("record {i}: the reused lazy record differs from a fresh one: {msg} (left = fresh, right = reused)"));
+                        }
+                    }
+                    (None, None) => {}
+                    (g, f) => fails.push("c09.reuse.lazy-outcome", format!("record {i}: reused lazy record decodes = {}, fresh = {}", g.is_some(), f.is_some())),
+                }
+            }
+        }
     }
     // after the last record both readers are at EOF
     if fails.is_empty() {
